@@ -118,7 +118,6 @@ Definition alloc_sound_t (pl : list ledger) (infos : list devinfo) (t : nat) (rq
       let l := ledger_of pl t in
       Nat.eqb (length al) (desired_of count) && nodupn (map fst al)
       && forallb (fun a => memn (fst a) (minors_of infos t)
-                           && negb (ris_zero (ores (dget (free l) (fst a))))
                            && fits_exposed l per (fst a)
                            && granted_ok t per (snd a)) al
   | _ => match al with [] => true | _ => false end
